@@ -7,6 +7,9 @@ import sys
 
 
 def main():
+    import warnings
+
+    warnings.simplefilter("ignore", RuntimeWarning)
     ap = argparse.ArgumentParser()
     ap.add_argument("prop", nargs="?")
     ap.add_argument("--tier", default=os.environ.get("VERIF_TIER", "quick"))
